@@ -258,8 +258,9 @@ func (c *Client) connect() error {
 			for {
 				val, err := stanza.NextPacket(c.transport.GetDecoder())
 				if err != nil {
+					// No session was established, so there is no disconnection to announce: the caller
+					// gets the error from connect() and decides about retrying.
 					c.ErrorHandler(err)
-					c.disconnected(state)
 					return
 				}
 				switch val.(type) {
